@@ -25,6 +25,8 @@ type c13Call struct {
 	kind   string
 	size   int
 	issued int64
+	// readableAfterClose: the call was issued after Close while received data was still pending
+	readableAfterClose bool
 }
 
 type c13 struct {
@@ -52,6 +54,8 @@ type c13 struct {
 	deadlineWhileBlocked, closeWhileBlocked, errWhileBlocked, multiBlocked int
 	timeouts, dataWakes, windowWakes                                       int
 	excluded                                                               int
+	dropYX, dropXY                                                         int // datagrams the network will drop next, per direction
+	lossy                                                                  int
 }
 
 const c13KeyOneWaiter = "C13:deadline-change-wakes-only-one-of-several-blocked-callers"
@@ -139,6 +143,9 @@ func (m *c13) validate(c *c13Call, deadline, setAt int64, sockErr error) {
 		if !m.closed {
 			m.failf("%s returned %v but the session is not closed", c.kind, err)
 		}
+		if c.readableAfterClose {
+			m.failf("Read after Close failed with %v although data received before Close was still pending (Read must drain it first)", err)
+		}
 	case sockErr != nil && errors.Is(err, sockErr):
 	default:
 		m.failf("%s returned unexpected error %v", c.kind, err)
@@ -200,6 +207,7 @@ func (m *c13) startRead(t *rapid.T) {
 	buf := make([]byte, size)
 	x := m.X
 	c := &c13Call{kind: "read", size: size, issued: m.now()}
+	c.readableAfterClose = m.closed && m.X.VerifReadable()
 	c.c = m.s.Go("Read", func() (int, error, any) { n, err := x.Read(buf); return n, err, nil })
 	m.readers = append(m.readers, c)
 	m.log("start Read(%d)", size)
@@ -247,6 +255,19 @@ func (m *c13) peerWrite(t *rapid.T) {
 }
 
 // peerRead drains the peer's receive side, which opens X's send window.
+// lose makes the network drop the next 1..2 datagrams of one direction: data
+// then arrives through FEC recovery or retransmission, acknowledgements through
+// later cumulative ones - the wake-ups must come all the same.
+func (m *c13) lose(t *rapid.T) {
+	if rapid.Bool().Draw(t, "towardsX") {
+		m.dropYX = rapid.IntRange(1, 2).Draw(t, "n")
+	} else {
+		m.dropXY = rapid.IntRange(1, 2).Draw(t, "n")
+	}
+	m.lossy++
+	m.log("network drops the next datagram(s): Y->X %d, X->Y %d", m.dropYX, m.dropXY)
+}
+
 func (m *c13) peerRead(t *rapid.T) {
 	buf := make([]byte, 65536)
 	n := 0
@@ -380,6 +401,17 @@ func newC13(rt *rapid.T) *c13 {
 	m.Y.SetNoDelay(1, m.interval, 2, 1)
 	m.Y.SetWriteDelay(true)
 	m.s.AfterEvent = m.invariant
+	xa, ya := addrX.String(), addrY.String()
+	m.s.OnSent = func(d *sim.Sent, from, to string, f *sim.Fate) error {
+		if from == ya && to == xa && m.dropYX > 0 {
+			m.dropYX--
+			*f = sim.Fate{}
+		} else if from == xa && to == ya && m.dropXY > 0 {
+			m.dropXY--
+			*f = sim.Fate{}
+		}
+		return nil
+	}
 	return m
 }
 
@@ -424,6 +456,7 @@ func TestC13Session(t *testing.T) {
 				"startWrite":   wrap(m.startWrite),
 				"peerWrite":    wrap(m.peerWrite),
 				"peerRead":     wrap(m.peerRead),
+				"lose":         wrap(m.lose),
 				"setDeadline":  wrap(m.setDeadline),
 				"setDeadline2": wrap(m.setDeadline),
 				"setDeadline3": wrap(m.setDeadline),
@@ -467,6 +500,9 @@ func TestC13Session(t *testing.T) {
 		}
 		if m.windowWakes > 0 {
 			cl = append(cl, "write_admitted")
+		}
+		if m.lossy > 0 {
+			cl = append(cl, "datagrams_lost")
 		}
 		for i := 0; i < m.excluded; i++ {
 			rec.Exclude(c13KeyOneWaiter)
